@@ -56,7 +56,11 @@ CLAIMED["C09"] = dict(
 CLAIMED["C16"] = dict(
    text="Real-arithmetic equivalence of the real kernels (z3 Real; arctan/exp uninterpreted): polynomial controllers: the coefficient of every parameter is obtained by substitution and must be a distinct monomial, and the map parameter->monomial must be a bijection onto ALL monomials of degree 1..d; partially linear controllers: output = linear law of an anchor at minimal squared distance (nonlinear products abstracted to uninterpreted terms, counterexamples realised constructively and replayed); peaks and generated ANNs (text captured from the real CodeGenerator, ~300 architectures in quick: inputs 2..6, outputs 1..6, 0..3 hidden layers of width 1..8) = the network evaluated layer by layer with the documented parameter layout and parameter count; Stuart-Landau and Lorenz = the published equations; no kernel writes state/params or leaves its arrays.",
    note="Reals stand in for floats: the claim is algebraic (the compiled kernels use fastmath, so their float result is association dependent anyway). Outside: min_ann, predefined controllers, the coupled-oscillator equations (no independent source offline). Two genuine defects found and repaired.",
-   design="4/C16", category="translation_validation")
+   design="4/C16")
+CLAIMED["C20"] = dict(
+   text="(partial) swap_distance: the real source on two symbolic permutations (length <= 6, thorough 7) returns n minus the number of cycles of p2 o p1^-1, cycles counted declaratively by iterated selects; that this number is the minimum number of transpositions is Cayley's theorem, re-confirmed by exhaustive BFS for n <= 6 together with the compiled kernel (enumeration, labelled). from_sequence_and_distance: the real source on <= 6 abstract objects with a symbolic pseudo-metric distance table (Instance constructor replaced by a recorder): recorded matrix = distances among the kept representatives, every original object mapped to a kept object at distance 0, kept objects pairwise at positive distance.",
+   note="Outside: the flow construction in Instance.__init__ (scipy rankdata, float powers/rounding) - only exercised when a from_sequence counterexample is replayed; |i-j| distances. Trusted: z3, argsort-of-permutation = inverse.",
+   design="4/C20")
 NA = {
  "C12": "quantifies over complete optimisation runs (moptipy Execution/Process, RNG streams, log files, budgets): no bounded symbolic encoding within reach; its solver-decidable ingredients are claimed under C01, C02, C04-C06, C19",
 }
